@@ -185,6 +185,9 @@ def merge(g, a, b):
             elif pb is None:
                 pay[k] = pa
             else:
+                n = max(len(pa), len(pb))
+                pa = list(pa) + [None] * (n - len(pa))
+                pb = list(pb) + [None] * (n - len(pb))
                 pay[k] = [merge(g, x, y) for x, y in zip(pa, pb)]
         d = a.discr if same_term(a.discr, b.discr) else z3.If(g, a.discr, b.discr)
         return VEnum(a.name, d, pay)
@@ -309,6 +312,7 @@ class Executor:
             self.enums.update(enums)
         self.K = K
         self.assumes = []
+        self.exit_guards = []     # path conditions of reaching the exit: assumed for goals, NOT for panic edges
         self.obligs = []
         self.models = []          # [(compiled regex, handler, label)]
         self.summaries = {}       # fn name (exact) -> handler
@@ -572,7 +576,11 @@ class Executor:
                         raise Unsupported("field %d of %s" % (p[1], v.name))
                     v = v.f[p[1]]
                 elif isinstance(v, tuple) and v[0] == "variant":
+                    if p[1] >= len(v[1]) or v[1][p[1]] is None:
+                        raise Unsupported("read of an unset variant field %d" % p[1])
                     v = v[1][p[1]]
+                elif isinstance(v, VEnum) and v.name == "Coroutine":
+                    v = v.pay[-1][p[1]]        # captured upvars
                 else:
                     raise Unsupported("field projection on %r" % (v,))
             elif k == "downcast":
@@ -612,6 +620,9 @@ class Executor:
         raise Unsupported("index into %r" % (v,))
 
     def variant_index(self, ename, vname):
+        m = re.fullmatch(r"variant#(\d+)", vname)
+        if m:
+            return int(m.group(1))
         e = self.enums.get(ename)
         if e is None or vname not in e:
             raise Unsupported("unknown enum variant %s::%s" % (ename, vname))
@@ -652,6 +663,12 @@ class Executor:
                 f = list(base.f)
                 f[p[1]] = self._update(st, f[p[1]], proj[1:], val)
                 return VStruct(base.name, f)
+            if isinstance(base, VEnum) and base.name == "Coroutine":
+                up = list(base.pay[-1])
+                up[p[1]] = self._update(st, up[p[1]], proj[1:], val)
+                pay = dict(base.pay)
+                pay[-1] = up
+                return VEnum(base.name, base.discr, pay)
             if base is None:
                 raise Unsupported("field write into unset aggregate")
             raise Unsupported("field write on %r" % (base,))
@@ -661,7 +678,9 @@ class Executor:
             vi = self.variant_index(base.name, p[1])
             # next projection must be a field
             q = proj[1]
-            fields = list(base.pay[vi])
+            fields = list(base.pay.get(vi, [])) if base.name == "Coroutine" else list(base.pay[vi])
+            while len(fields) <= q[1]:
+                fields.append(None)
             fields[q[1]] = self._update(st, fields[q[1]], proj[2:], val)
             pay = dict(base.pay)
             pay[vi] = fields
